@@ -795,11 +795,11 @@ class Hypergraph:
                     self._node[n].add(idx)
 
                 self._edge_attr[idx] = self._edge_attr_dict_factory()
+                if format2 or format4:
+                    # before the attributes are applied: invalid attributes raise below
+                    update_uid_counter(self, idx)
                 self._edge_attr[idx].update(attr)
                 self._edge_attr[idx].update(eattr)
-
-                if format2 or format4:
-                    update_uid_counter(self, idx)
 
             try:
                 e = next(new_edges)
